@@ -214,7 +214,7 @@ def cookie_obligations():
                 and n.args and isinstance(n.args[0], ast.Constant) and isinstance(n.args[0].value, bytes):
             pats.append((n.func.attr, n.args[0].value))
     cookie = [p for k, p in pats if b'coding' in p]
-    if len(cookie) != 1:
+    if len(cookie) != 1 or [k for k, p in pats if b'coding' in p] != ['match']:
         obs.append(Ob('re:utils.cookie:bind', 'D', 'reglan:structure', UNDECIDED, 0,
                       'binding error: expected one bytes pattern containing "coding" in parso.utils, found %d' % len(cookie),
                       functions=f))
@@ -223,28 +223,51 @@ def cookie_obligations():
     hi = 255
     anyb = rx.rng(0, hi)
     allb = z3.Star(anyb)
-    line = z3.Star(union([rx.rng(a, b) for a, b in rx.complement_ranges([[10, 10], [13, 13]], hi)]))
-    parso_line = z3.Intersect(z3.Concat(allb, pl, allb), line)     # a line in which parso finds a declaration
-    refl, _ = rx.lang(ref.cookie_re.pattern.encode('latin-1') if isinstance(ref.cookie_re.pattern, str)
-                      else ref.cookie_re.pattern, 'over', ref.cookie_re.flags)
-    ref_line = z3.Intersect(z3.Concat(refl, allb), line)
+    nocr = z3.Star(union([rx.rng(a, b) for a, b in rx.complement_ranges([[13, 13]], hi)]))
+    notnl = union([rx.rng(a, b) for a, b in rx.complement_ranges([[10, 10], [13, 13]], hi)])
+    src_parso = z3.Intersect(z3.Concat(pl, allb), nocr)      # sources (without CR) in which parso finds a declaration
+
+    def enc(p):
+        return p.encode('latin-1') if isinstance(p, str) else p
+    cookie_ref, _ = rx.lang(enc(ref.cookie_re.pattern), 'over')
+    line = z3.Star(notnl)
+    c_line = z3.Intersect(z3.Concat(cookie_ref, line), line)            # a line holding a PEP 263 declaration
+    # "the first line is blank or a comment": transcription of tokenize.blank_re for a line without its newline,
+    # validated against blank_re itself on every string of length <= 4 over a 7-character alphabet
+    b_line = z3.Concat(z3.Star(chars(' \t\x0c')), z3.Option(z3.Concat(lit('#'), line)))
+    import itertools
+    mine = re.compile(br'[ \t\f]*(?:#[^\n\r]*)?\Z')
+    for L in range(5):
+        for tup in itertools.product([b' ', b'\t', b'\x0c', b'#', b'a', b'c', b'='], repeat=L):
+            w = b''.join(tup)
+            if bool(ref.blank_re.match(w + b'\n')) != bool(mine.match(w)):
+                obs.append(Ob('re:utils.cookie:bind', 'D', 'reglan:structure', UNDECIDED, 0,
+                              'transcription of tokenize.blank_re disagrees with it on %r' % w, functions=f))
+                return obs
+    src_ref = z3.Intersect(z3.Union(z3.Concat(c_line, z3.Option(z3.Concat(lit('\n'), allb))),
+                                    z3.Concat(b_line, lit('\n'), c_line, z3.Option(z3.Concat(lit('\n'), allb)))), nocr)
 
     def replay(w):
-        b = w.encode('latin-1', 'replace') + b'\n'
+        b = w.encode('latin-1', 'replace')
         code = ('import sys, io, tokenize\n'
                 'from parso.utils import python_bytes_to_unicode\n'
                 'b = %r\n'
-                'enc, _ = tokenize.detect_encoding(io.BytesIO(b).readline)\n'
-                'exp = b.decode(enc)\n'
+                'try:\n'
+                '    enc, _ = tokenize.detect_encoding(io.BytesIO(b).readline)\n'
+                '    exp = b.decode(enc)\n'
+                'except Exception as e:\n'
+                '    print("reference cannot decode:", e); sys.exit(0)\n'
                 'try:\n'
                 '    got = python_bytes_to_unicode(b)\n'
                 'except Exception as e:\n'
                 '    print("parso raised", type(e).__name__, e, "; CPython decodes with", enc); sys.exit(1)\n'
                 'print("same" if got == exp else "parso %%r != CPython %%r" %% (got, exp)); sys.exit(0 if got == exp else 1)\n' % (b,))
         return _native(code)
-    obs.append(rx.ob_subset('re:utils.cookie:only-in-comment', parso_line, ref_line, f, replay,
-                            what='a line on which parso finds a coding declaration is a PEP 263 declaration line '
-                                 '(reference: the running CPython tokenize.cookie_re)'))
+    obs.append(rx.ob_subset('re:utils.cookie:only-where-pep263-allows', src_parso, src_ref, f, replay,
+                            what='parso finds a coding declaration only in sources where PEP 263 / the running CPython\'s '
+                                 'tokenize (cookie_re, blank_re) finds one: a comment on line 1, or on line 2 after a blank/comment line'))
+    obs.append(rx.ob_subset('re:utils.cookie:none-missed', src_ref, src_parso, f, replay,
+                            what='every source in which CPython finds a declaration is one in which parso finds it'))
     return obs
 
 
